@@ -180,6 +180,23 @@ pub fn c10() -> i32 {
             })
             .collect();
         scns.extend(fast);
+        let scns = if t {
+            let mut extra: Vec<Scenario> = Vec::new();
+            for s in scns.iter().filter(|s| s.name.starts_with("c10-split:") && s.link_lat.is_empty()) {
+                for (prog, pred) in [(Program::Runs, Pred::RepeatLast), (Program::Changing, Pred::Default)] {
+                    let mut x = s.clone();
+                    x.program = prog;
+                    x.pred = pred;
+                    x.name = format!("{} [{prog:?} {pred:?}]", s.name);
+                    extra.push(x);
+                }
+            }
+            let mut all = scns;
+            all.extend(extra);
+            all
+        } else {
+            scns
+        };
         let n = scns.len();
         let cfg = ExploreCfg { k: Some(0), wall: Duration::from_secs(if t { 1800 } else { 40 }), ..Default::default() };
         let out = explore(&scns, &cfg, &judge);
